@@ -422,6 +422,11 @@ def main():
     for nf in ((3, 4, 5, 6) if thorough else (5,)):
         for od in ([(1, 1), (2, 2), (3, 1)] if not thorough else [(q, e) for q in (1, 2, 3, 4) for e in (1, 2)]):
             chk.case("unit.qed.o%d%d.nf%d" % (od[0], od[1], nf), case_unit_qed, order=od, nf=nf)
+    # "composes up to its discretisation error": that error is the one documented for the midpoint rule, i.e. its eps^3 part falls
+    # exactly like 1/n^2 with the number of iterations (shared with C12)
+    from . import C12 as c12
+
+    chk.case("iterate.rate.o2", c12.case_iterate_rate, order=2, its=(1, 2, 3))
     return chk.run()
 
 
